@@ -26,6 +26,12 @@ part "url"   : images built by from_url from a local http.server thread on 127.0
                (200 image, 404, non-image body, bad constructor argument); listing of the
                library's temp dir before / while open / after close / after failure.
 
+part "corder": (round 9) histories of ImageIterator(image) / next() / iterator.close() / image.close() with
+               the image's close() at any position (file, PIL, URL sources; several iterators over one
+               image); after EVERY operation, nothing dropped or collected: descriptors held on behalf
+               of the library, the temp-dir listing, the caller's PIL image still usable; at the end
+               the balance after drop + collection.
+
 Everything reported is an integer, a bool or a list of those."""
 import implenv
 from implenv import tests
@@ -810,9 +816,9 @@ def start_server(root):
 SERVER = None
 
 
-def run_url(case, idx):
+def ensure_server():
+    """-> (root directory served, port) of the local HTTP server (started on first use)"""
     global SERVER
-    tests.set_cell_size((10, 20))
     root = os.path.join(TMP, "www")
     if SERVER is None:
         os.makedirs(root, exist_ok=True)
@@ -828,7 +834,12 @@ def run_url(case, idx):
             KittyImage.from_url(f"http://127.0.0.1:{SERVER.server_address[1]}/img.png").close()
         except Exception:
             pass
-    port = SERVER.server_address[1]
+    return root, SERVER.server_address[1]
+
+
+def run_url(case, idx):
+    tests.set_cell_size((10, 20))
+    root, port = ensure_server()
     cls = setup_style(case["style"])
     tdir = common._TEMP_DIR
     gc.collect()
@@ -891,13 +902,98 @@ def run_url(case, idx):
     return {"rows": rows, "base": base, "files_end": len(os.listdir(tdir)), "fd_delta": fd_count() - fd0}
 
 
+# ------------------------------------------------------------------ part: corder (round 9)
+# image.close() at ANY position of a history of iterators over that image; one observation row
+# after every operation, with every object still referenced (nothing dropped, nothing collected).
+
+
+def corder_once(case, idx):
+    cls = setup_style(case["style"], case.get("term"))
+    tdir = common._TEMP_DIR
+    url = case["source"] == "url"
+    if url:
+        root, port = ensure_server()
+    else:
+        path = source_path(case["src"], idx)
+    gc.collect()
+    fd0 = fd_count()
+    t0 = len(os.listdir(tdir))
+    keep = None
+    if url:
+        image = cls.from_url(f"http://127.0.0.1:{port}/anim.gif")
+        if case.get("size") is not None:
+            apply_size(image, case["size"])
+    else:
+        image, keep = construct(cls, case["source"], path, case.get("size"))
+    N = image.n_frames
+    gc.collect()
+    fd1 = fd_count() - own_fd(keep)
+    its, rows = [], []
+    odd = None
+    for op in case["ops"]:
+        code = -1
+        it = its[op[1]] if op[0] in ("next", "iclose") and op[1] < len(its) else None
+        try:
+            if op[0] == "new":
+                its.append(None)
+                its[-1] = ImageIterator(image, op[1], case.get("spec", "1.1"), op[2])
+                code = 9
+            elif op[0] == "next":
+                if it is None:
+                    code = 1
+                else:
+                    try:
+                        next(it)
+                        code = 0
+                    except StopIteration:
+                        code = 1
+            elif op[0] == "iclose":
+                if it is not None:
+                    it.close()
+                code = 8
+            elif op[0] == "imgclose":
+                image.close()
+                code = 8
+        except common.TermImageError as e:
+            code = 3 if op[0] == "new" else 2
+            del e
+        except Exception as e:  # noqa: BLE001
+            code = 2
+            odd = odd or repr(e)[:160]
+            del e
+        it = None
+        alive = True
+        if keep is not None:
+            try:
+                keep.load()
+                keep.getpixel((0, 0))
+            except Exception:
+                alive = False
+        rows.append([code, fd_count() - own_fd(keep) - fd1, len(os.listdir(tdir)) - t0, alive])
+    # the existing end-of-history judgement: everything dropped and collected
+    its.clear()
+    image.close()
+    del image
+    if keep is not None:
+        keep.close()
+    keep = None
+    gc.collect()
+    return {"N": N, "rows": rows, "fd_end": fd_count() - fd0, "tmp_end": len(os.listdir(tdir)) - t0, "odd": odd}
+
+
+def run_corder(case, idx):
+    tests.set_cell_size(tuple(case.get("cell", (10, 20))))
+    corder_once(case, idx)  # warm up (lazy imports), so that the descriptor baseline is stable
+    return corder_once(case, idx)
+
+
 def main():
     cases = implenv.read_cases()
     out = []
     try:
         for i, c in enumerate(cases):
             try:
-                out.append({"iter": run_iter, "reent": run_iter, "fault": run_fault, "sfault": run_sfault, "url": run_url}[c["part"]](c, i))
+                out.append({"iter": run_iter, "reent": run_iter, "fault": run_fault, "sfault": run_sfault, "url": run_url, "corder": run_corder}[c["part"]](c, i))
             except Exception:  # noqa: BLE001
                 import traceback
                 sys.stdout = REAL_STDOUT
